@@ -70,8 +70,7 @@ def touches(body, adts, field):
     return hits
 
 
-def where(ctx, report, facts, config):
-    rule = "C12.WHERE"
+def where(ctx, report, facts, config, rule="C12.WHERE"):
     prog = ctx.program(facts)
     n = 0
     for b in sorted(facts.bodies.values(), key=lambda b: b.key):
@@ -111,8 +110,7 @@ def where(ctx, report, facts, config):
                   site=cb.loc(bb), config=config)
 
 
-def order(ctx, report, facts, config):
-    rule = "C12.ORDER"
+def order(ctx, report, facts, config, rule="C12.ORDER"):
     prog = ctx.program(facts)
     b = facts.one(A.DISP + "::dispatch")
     report.touched(b, config)
@@ -134,8 +132,7 @@ def order(ctx, report, facts, config):
                   "wait does not take the state back (blocking) before running thread-local systems", site=b.loc(), config=config)
 
 
-def convert(ctx, report, facts, config):
-    rule = "C12.CONVERT"
+def convert(ctx, report, facts, config, rule="C12.CONVERT"):
     b = facts.one(A.DISP + "::try_into_sendable")
     report.touched(b, config)
     paths = [p for p in enumerate_paths(b, facts) if p.end == "return"]
